@@ -37,17 +37,20 @@ class Rig:
 		if app:
 			# list order: BTS (listening peer), MS (bystander, tuned elsewhere), a child of the BTS and an
 			# additional transceiver (the senders): whatever the bystander does must not matter
-			self.aw = sim.AppWorld(["-b", "127.0.0.1", "--trx", "127.0.0.1:5700/1", "--trx", "127.0.0.1:7700"], seed = seed)
+			# ... and a child of that additional transceiver (a third sender): its parent's POWEROFF empties both queues,
+			# its parent's POWERON must leave alone what a child that was already running has queued
+			self.aw = sim.AppWorld(["-b", "127.0.0.1", "--trx", "127.0.0.1:5700/1", "--trx", "127.0.0.1:7700",
+				"--trx", "127.0.0.1:7700/1"], seed = seed)
 			self.bench = radio.Bench.from_app(self.aw)
 			b = self.bench
-			plan = [(935000, 890000), (947000, 902000), (890000, 935000), (890000, 935000)]
+			plan = [(935000, 890000), (947000, 902000), (890000, 935000), (890000, 935000), (890000, 935000)]
 			for i, (rx, tx) in enumerate(plan):
 				b.cmd(i, "RXTUNE %d" % rx)
 				b.cmd(i, "TXTUNE %d" % tx)
 			for i in (0, 1, 3):
 				b.cmd(i, "POWERON")       # the child is powered with its parent
 			self.peer = 0
-			self.senders = [2, 3]
+			self.senders = [2, 3, 4]
 			self.bystanders = [1]
 			self.log = self.aw.log
 			self.log.take()
@@ -257,6 +260,12 @@ def _sequential(ctx, r, idx, rig):
 			s = r.choice(rig.senders)
 			b.cmd(s, "POWEROFF")
 			gone = model.clear(s)
+			ms = b.models[s]
+			if ms.child_mgt and ms.child_idx == 0:
+				for j, mj in enumerate(b.models):
+					if any(mj is c for c in ms.children):
+						gone = gone + model.clear(j)
+						ctx.count("child_queues_cleared_with_the_parent")
 			ctx.count("cleared_by_poweroff", len(gone))
 			hist.append("POWEROFF %s (clears %r)" % (b.models[s].name, gone))
 		elif x < 0.97:
